@@ -466,3 +466,19 @@ Definition parse_line (pr : aparams) (bk : banks) (ginstrs : list string) (t : l
       end
   | None => None
   end.
+
+(* ---------- C17 corollary: a whole subroutine through text -> binary -> text ---------- *)
+
+Definition pp_body (bk : banks) (body : list (row * list operand)) : list string :=
+  map (fun c => pp_instr bk (fst c) (snd c)) body.
+
+Definition text_binary_text (pr : aparams) (bk : banks) (gi : list string) (h : header) (t : list row)
+    (v0 v1 app : Z) (lines : list string) : option (list string) :=
+  match opt_all (map (parse_line pr bk gi t) lines) with
+  | None => None
+  | Some body =>
+      match decode_sub h t (encode_sub h (mkSub v0 v1 app body)) with
+      | None => None
+      | Some s' => Some (pp_body bk (s_body s'))
+      end
+  end.
